@@ -74,12 +74,12 @@ def draw_c2s(rng, n):
 def run_shard(ctx):
     acc = ctx.acc
     rng = ctx.rng("docs")
-    n = 2500 if ctx.quick() else 60000
+    n = 7000 if ctx.quick() else 120000
     for j in range(n):
         if ctx.out_of_time():
             acc.notes.append("time budget reached after %d docs" % j)
             break
-        text, feats = docgen.gen_doc(rng, hostile=0.5, eval_atoms=0.02, root=True)
+        text, feats = docgen.gen_doc(rng, hostile=0.5, eval_atoms=0.02, root=True, prolog=0.3)
         case = dict(input=text.encode("utf-8"), c1=docgen.gen_cfg(rng), c2s=draw_c2s(rng, 2), feats=feats)
         check_case(ctx, case)
         if j < 2:
